@@ -7,6 +7,7 @@ import RV.Driver.Util
 
     force  N G soft2 (m x y z)*N                          -> 3N   accBasicAll on Float
     forceI/var1I/ad1I  ign N G ...                          -> 3N   the same under gravity_ignore_terms = ign
+    corrsched order inv dt na a*na nb b*nb                  -> "K a ; RR ; RV ; A ; I b ; …" schedule of reb_whfast_apply_corrector
     whjac/adwhjac G eta dt soft x y z dx dy dz             -> 6/3  WHFast Jacobi term and its variation / AD
     forceS/var1S/ad1S/ad2S  N_active tptype N G ...        -> 3N   the same with N_active < N (accBasicSplit/accVar1Split)
     var1   N G (m x y z)*N (dm dx dy dz)*N                -> 3N   accVar1 on Float (hand-derived loops)
@@ -100,6 +101,17 @@ def step (toks : List String) : String :=
   | ["adwhjac", g, eta, dt, _soft, x, y, z, dx, dy, dz] =>
     let v := whJacKick (cD (fl g)) (cD (fl eta)) (cD (fl dt)) (cD 0.0) (Dual.sqrtLift sqrtF) ⟨fl x, fl dx⟩ ⟨fl y, fl dy⟩ ⟨fl z, fl dz⟩
     v3s [⟨v.x.eps, v.y.eps, v.z.eps⟩]
+  | "corrsched" :: order :: inv :: dt :: na :: rest =>
+    let na := na.toNat!
+    let as_ := (rest.take na).map fl
+    let bs := (rest.drop (na + 1)).map fl
+    let show1 : WOp Float → String
+      | .kepler a => "K " ++ hx a
+      | .refreshReal => "RR"
+      | .refreshVar => "RV"
+      | .acc => "A"
+      | .interaction b => "I " ++ hx b
+    " ; ".intercalate ((correctorPair order.toNat! (fl inv) (fl dt) as_ bs).map show1)
   | "ad1soft" :: n :: g :: s2 :: rest =>
     let n := n.toNat!
     let all := gps rest
